@@ -29,7 +29,7 @@ BOUNDS = {
         dict(name="deep", minlen=1, maxlen=3, maxk=1, depth=2, gk=1, types=T3, gtypes=("", "string")),
     ],
 }
-STREAM_FAMS = ["mix", "concat", "net", "shell", "ctx"]
+STREAM_FAMS = ["mix", "concat", "net", "shell", "ctx", "pairs"]
 
 
 def describe(tier):
